@@ -653,6 +653,9 @@ func sanitize(s string) string {
 func (ct *FuncContract) PkgPath() string { return ct.Pkg }
 
 // pureCall: result is an uninterpreted function of scalar arguments, otherwise unconstrained.
+// pure (no heap effect) but not a function of the arguments: the answer changes with time
+var volatilePure = map[string]bool{"(context.Context).Err": true}
+
 func (vc *FnVC) pureCall(full string, args []TV, results []TV, sig *types.Signature) {
 	scalar := true
 	var sorts, ts []string
@@ -667,7 +670,7 @@ func (vc *FnVC) pureCall(full string, args []TV, results []TV, sig *types.Signat
 	for i := range results {
 		rt := sig.Results().At(i).Type()
 		rs := vc.e.sortOf(rt)
-		if scalar && len(args) > 0 {
+		if scalar && len(args) > 0 && !volatilePure[full] {
 			f := sym(fmt.Sprintf("uf$%s$%d$%s", full, i, strings.Join(sorts, ",")))
 			vc.e.decl("uf:"+f, fmt.Sprintf("(declare-fun %s (%s) %s)", f, strings.Join(sorts, " "), rs))
 			results[i] = TV{t: vc.define(vc.e.fresh("pure"), rs, app(f, ts...)), ty: rt}
